@@ -347,6 +347,90 @@ fn check_closest(c: &ClosestCase, ctx: &mut Ctx) {
     }
 }
 
+
+// ------------------------------------------------------------------------------------------------
+// section fetch_order: the replication fetcher's "closest first" is a closeness decision too
+// ------------------------------------------------------------------------------------------------
+
+#[derive(Clone, Debug, Serialize, Deserialize)]
+pub struct FetchCase {
+    pub node: u8,
+    /// keys (by closeness rank 0..40) the first holder advertises
+    pub first: Vec<bool>,
+    /// keys further holders advertise (holder index 1.., rank mask)
+    pub more: Vec<Vec<bool>>,
+    /// which in-flight fetch completes next
+    pub completes: Vec<u16>,
+}
+
+fn fetch_strategy() -> BoxedStrategy<FetchCase> {
+    let mask = |p_true: u32| proptest::collection::vec(proptest::bool::weighted(p_true as f64 / 100.0), 40);
+    (0u8..8, mask(90), proptest::collection::vec(mask(50), 1..3), proptest::collection::vec(any::<u16>(), 1..vh_core::depth(40, 80)))
+        .prop_map(|(node, first, more, completes)| FetchCase { node, first, more, completes })
+        .boxed()
+}
+
+fn check_fetch_order(case: &FetchCase, ctx: &mut Ctx) {
+    use ant_protocol::storage::RecordType;
+    use std::collections::{HashMap, HashSet};
+    let mut w = crate::c08::World::new(case.node);
+    let none_local: HashMap<RecordKey, (NetworkAddress, RecordType)> = HashMap::new();
+    let advert = |w: &crate::c08::World, mask: &Vec<bool>| -> Vec<(NetworkAddress, RecordType)> {
+        mask.iter().enumerate().filter(|(_, b)| **b).filter_map(|(i, _)| w.keys.get(i).map(|k| (k.1.clone(), RecordType::Chunk))).collect()
+    };
+    let mut dup_in_flight_when_freed = false;
+    // judge one scheduling step: `new` = (key rank) just scheduled
+    let mut judge = |w: &crate::c08::World, new: &[usize], at: &str, ctx: &mut Ctx| {
+        let ongoing: HashSet<usize> = w.ongoing().into_iter().map(|(i, _, _)| i).collect();
+        let eligible_left: Vec<usize> = w.pending().into_iter().map(|(i, _, _)| i).filter(|i| !ongoing.contains(i)).collect();
+        // keys are sorted by increasing reference distance: the rank IS the closeness order
+        if let (Some(far_new), Some(close_left)) = (new.iter().max(), eligible_left.iter().min()) {
+            if far_new > close_left {
+                ctx.fail("fetch_scheduled_beyond_a_closer_eligible_record", format!("{at}: scheduled the record of closeness rank {far_new} while rank {close_left} was queued and not in flight"));
+            }
+        }
+    };
+    let h0 = w.holders[0];
+    let a0 = advert(&w, &case.first);
+    if a0.len() < 2 {
+        return;
+    }
+    let r = w.rt.block_on(async { w.f.add_keys(h0, a0, &none_local) });
+    let new: Vec<usize> = r.iter().map(|(_, k)| w.idx(k)).collect();
+    judge(&w, &new, "first advertisement", ctx);
+    for (hi, m) in case.more.iter().enumerate() {
+        let h = w.holders[(hi + 1) % w.holders.len()];
+        let a = advert(&w, m);
+        if a.len() < 2 {
+            continue;
+        }
+        let r = w.rt.block_on(async { w.f.add_keys(h, a, &none_local) });
+        let new: Vec<usize> = r.iter().map(|(_, k)| w.idx(k)).collect();
+        judge(&w, &new, &format!("advertisement of holder {}", hi + 1), ctx);
+    }
+    let mut done = 0;
+    for (step, c) in case.completes.iter().enumerate() {
+        let mut flying: Vec<usize> = w.ongoing().into_iter().map(|(i, _, _)| i).collect();
+        flying.sort();
+        if flying.is_empty() {
+            break;
+        }
+        let fset: HashSet<usize> = flying.iter().copied().collect();
+        if w.pending().into_iter().any(|(i, _, _)| fset.contains(&i)) {
+            dup_in_flight_when_freed = true;
+        }
+        let k = flying[pick_idx(*c, flying.len())];
+        let key = w.keys[k].0.clone();
+        let r = w.rt.block_on(async { w.f.notify_about_new_put(key, RecordType::Chunk) });
+        done += 1;
+        let new: Vec<usize> = r.iter().map(|(_, k)| w.idx(k)).collect();
+        judge(&w, &new, &format!("completion {step} (rank {k})"), ctx);
+    }
+    ctx.label_if(dup_in_flight_when_freed, "queued_duplicate_of_in_flight_key_when_a_slot_freed");
+    ctx.label_if(done >= 20, "whole_first_batch_completed");
+    ctx.nontrivial_if(dup_in_flight_when_freed && done > 0);
+}
+
 pub fn run(cfg: RunCfg) {
     let mut rep = Report::new(cfg, "exploration");
     rep.rule = "C11: addresses of every kind (peer, chunk, register, scratchpad, transaction, raw keys of 0-64 bytes, constructed near-collisions of the hash prefix); reference = SHA-256/XOR/big-endian in the harness.".into();
@@ -373,6 +457,11 @@ pub fn run(cfg: RunCfg) {
         rep, "node_closest_peers", (40_000, 2_000_000), 16,
         "ant-node's GetClosestPeers answer (range form and count form) vs the reference filter / sort; non-trivial: >= 2 peers and a bound given",
         closest_strategy, check_closest
+    );
+    vh_core::section!(
+        rep, "fetch_order", (40_000, 1_000_000), 16,
+        "real ReplicationFetcher with a backlog larger than its parallel limit (40 keys, two to three holders advertising overlapping subsets): after every scheduling step the records scheduled must be no farther (reference metric) than any queued record that is not in flight. non-trivial: a key queued from a second holder was in flight when a slot freed",
+        fetch_strategy, check_fetch_order
     );
     rep.finish();
 }
